@@ -8,6 +8,7 @@ placements); coordinates are produced with an independent atan2 based routine.
 from __future__ import annotations
 
 import math
+import os
 import zlib
 from dataclasses import dataclass, field
 
@@ -235,7 +236,7 @@ def centre_coords(sc: SkyConfig, emb, extra=None, perm=None):
 
 
 def realise(sc: SkyConfig, exp, workdir, emb="equator", *, extra=None, order=None, wscale=1.0, perm=None, want=("cross", "auto", "meta", "hist", "trees"),
-            workers: int = 1, sched_seed: int = 0):
+            workers: int = 1, sched_seed: int = 0, derived: bool = False):
     """Run the real pipeline for one scenario.  Returns dict of observations
     (or raises whatever the library raises).  With workers > 1 the measuring stages
     run on the deterministic fake multiprocessing runtime (functions, arguments and
@@ -243,22 +244,56 @@ def realise(sc: SkyConfig, exp, workdir, emb="equator", *, extra=None, order=Non
     if workers > 1:
         from . import detrt
 
-        s, outcome = detrt.run_main(lambda: _realise(sc, exp, workdir, emb, extra, order, wscale, perm, want, workers), seed=sched_seed)
+        s, outcome = detrt.run_main(lambda: _realise(sc, exp, workdir, emb, extra, order, wscale, perm, want, workers, derived), seed=sched_seed)
         if outcome[0] == "ok":
             return outcome[1]
         if outcome[0] == "raised":
             raise outcome[1]
         raise RuntimeError(f"deadlock: {outcome[1]}")
-    return _realise(sc, exp, workdir, emb, extra, order, wscale, perm, want, 1)
+    return _realise(sc, exp, workdir, emb, extra, order, wscale, perm, want, 1, derived)
 
 
-def _realise(sc, exp, workdir, emb, extra, order, wscale, perm, want, W):
+def _angle(p, q):
+    """angular distance of two (ra, dec) points in radian (haversine)"""
+    h = math.sin((p[1] - q[1]) / 2) ** 2 + math.cos(p[1]) * math.cos(q[1]) * math.sin((p[0] - q[0]) / 2) ** 2
+    return 2.0 * math.asin(min(1.0, math.sqrt(h)))
+
+
+def _realise(sc, exp, workdir, emb, extra, order, wscale, perm, want, W, derived=False):
     yaw = data.import_yaw()
     dref, dunk = frames(sc, exp, emb, extra, order, wscale)
     cen = centre_coords(sc, emb, extra, perm)
     kw = dict(ra_name="ra", dec_name="dec", weight_name="w", patch_centers=cen, overwrite=True, max_workers=1)
     workdir.mkdir(parents=True, exist_ok=True)
-    cref = yaw.Catalog.from_dataframe(workdir / "ref", dref, redshift_name="z", **kw)
+    cref = None
+    if derived and order is None and perm is None and "assign1" in exp:
+        # the usual work flow: the reference catalog is split by a patch-index column (the model's assignment), its centres
+        # and radii are DERIVED from its data, every other catalog inherits the centres.  Used only if the derived centres
+        # reproduce the model's assignment of every object of both samples with a clear margin (else: given centres)
+        dpid = dref.copy()
+        dpid["pid"] = [int(a) - 1 for a in exp["assign1"]]
+        kwi = {k: v for k, v in kw.items() if k != "patch_centers"}
+        try:
+            cand = yaw.Catalog.from_dataframe(workdir / "ref", dpid, redshift_name="z", patch_name="pid", **kwi)
+            dc = cand.get_centers().data
+            good = len(dc) == len(sc.centres)
+            for frame_, assign in ((dref, exp["assign1"]), (dunk, exp["assign2"])):
+                for pt, a in zip(np.deg2rad(frame_[["ra", "dec"]].to_numpy()), assign):
+                    ds = [_angle(pt, c) for c in dc]
+                    best = min(range(len(ds)), key=ds.__getitem__)
+                    good = good and best == int(a) - 1 and all(ds[j] - ds[best] > 1e-6 for j in range(len(ds)) if j != best)
+        except Exception:  # noqa: BLE001 - e.g. a patch index that is not contiguous: not the subject here
+            good = False
+        if good:
+            cref = cand
+            cen = yaw.AngularCoordinates(dc.copy())
+            kw["patch_centers"] = cref
+        else:
+            import shutil
+
+            shutil.rmtree(workdir / "ref", ignore_errors=True)
+    if cref is None:
+        cref = yaw.Catalog.from_dataframe(workdir / "ref", dref, redshift_name="z", **kw)
     # when every unknown object has weight 1 the weight column may as well be absent (a weighted catalog is then
     # counted against an unweighted one); which scenarios do so varies with the scenario
     kwu = dict(kw)
@@ -283,7 +318,7 @@ def _realise(sc, exp, workdir, emb, extra, order, wscale, perm, want, W):
         history.reverse()
     for e_, c_ in history:
         cref.build_trees(e_, closed=c_, max_workers=1)
-    out = {}
+    out = {"derived_centres": kw.get("patch_centers") is cref}
     # every other scenario measures with the progress display on (results then pass through the Indicator wrapper)
     progress = zlib.crc32(repr(exp["unk"]).encode()) % 4 < 2
     from .yawenv import quiet_fds
